@@ -19,7 +19,33 @@ def _op_nontrivial(line, verdict):
     return line.endswith("=> 1") or line.endswith("=> ERR")
 
 
+def _body_nontrivial(line, verdict):
+    # a write straddled or hit a threshold: something was refused, truncated, or spilled past the memory limit
+    return "413" in line or "500" in line or "dataerr=1" in line
+
+
 PROPS = {
+    "C10": {
+        "engines": [
+            {"name": "body", "quick": 40000, "thorough": 1200000, "shards": 8},
+        ],
+        "nontrivial": _body_nontrivial,
+        "rule": "body: (side, limit, in-memory limit, Reject|ProcessPartial, up to 5 writes through WriteXBody / ReadXBodyFrom "
+                "with and without a known length) with chunk sizes aimed at limit-1/limit/limit+1 and memLimit/memLimit+1 of "
+                "the remaining room, empty chunks, then ProcessXBody, full read-back through the body reader, REQUEST_BODY/"
+                "RESPONSE_BODY via a rule, INBOUND/OUTBOUND_DATA_ERROR via a phase-5 rule. Non-trivial = some write was "
+                "refused or truncated (limit reached); distinct = distinct protocol line.",
+        "modelled": "modelled and proved: BodyBuffer.Write/Reader/Read (memory and spill file), WriteRequestBody, "
+                    "ReadRequestBodyFrom, WriteResponseBody, ReadResponseBodyFrom, the hand-off to ProcessRequestBody/"
+                    "ProcessResponseBody and the RAW body processor's REQUEST_BODY. os file operations are modelled as "
+                    "infallible appends (their failure is C20's subject); int64 overflow guards unreachable below 1 GiB.",
+        "assumptions": [
+            "io.CopyN delivers the reader's bytes in order in one or more BodyBuffer.Write calls (chunks < 32 KiB here)",
+            "limits are within Validate's range (0 < memLimit <= limit <= 1 GiB)",
+        ],
+        "open_statements": ["observations (returned interruption / n) are proved for the Reject slice path (C10_reject_iff); "
+                            "their independence of memLimit for the reader paths is tied by correspondence only"],
+    },
     "C15": {
         "engines": [
             {"name": "op", "quick": 120000, "thorough": 4000000, "shards": 8},
